@@ -38,6 +38,7 @@ type stats struct {
 	SchedPoints  int64                       `json:"sched_points"`
 	JitterCases  int64                       `json:"jitter_cases"`
 	Watchdogs    int64                       `json:"watchdogs"`
+	LeftBehind   int64                       `json:"left_behind"` // rounds that ended with goroutines blocked for good
 	CurrentCase  int64                       `json:"current_case"` // partial files only: the case the worker was executing
 }
 
@@ -109,6 +110,7 @@ func (s *stats) merge(o *stats) {
 	s.SchedPoints += o.SchedPoints
 	s.JitterCases += o.JitterCases
 	s.Watchdogs += o.Watchdogs
+	s.LeftBehind += o.LeftBehind
 	for h, m := range o.Hist {
 		for b, n := range m {
 			s.CountN(h, b, n)
